@@ -61,12 +61,13 @@ Step ==
     /\ l <= Len(Traces[tid].events)
     /\ LET ev == Ev
            f == Failed(ev)
-           exp == IF C20_Representation THEN ImplAfter(ev) ELSE Logged(ev)   \* once corrupted, follow the log
-           same == /\ ev.priv => (exp.edges = ev.pedges /\
-                               {<<e, exp.hmap[e]>> : e \in DOMAIN exp.hmap} = PairsOf(ev.phmap))
-                   /\ (ev.op = "draw" /\ ev.choice >= 0 /\ ev.raised = "") =>
-                          (ev.choice < Len(edges) /\ ev.res = edges[ev.choice + 1])
-           nxt == IF ev.priv /\ ~same THEN Logged(ev) ELSE exp
+           off == drift # <<>>                 \* after the first drift the implementation-shaped layer is switched off for this trace
+           exp == IF off THEN St ELSE ImplAfter(ev)
+           same == off \/ (/\ ev.priv => (exp.edges = ev.pedges /\
+                                          {<<e, exp.hmap[e]>> : e \in DOMAIN exp.hmap} = PairsOf(ev.phmap))
+                           /\ (ev.op = "draw" /\ ev.choice >= 0 /\ ev.raised = "") =>
+                                  (ev.choice < Len(edges) /\ ev.res = edges[ev.choice + 1]))
+           nxt == exp
        IN /\ viol' = IF f = {} \/ Len(viol) >= 3 THEN viol
                      ELSE Append(viol, <<l, CHOOSE c \in f : TRUE>>)
           /\ drift' = IF same \/ Len(drift) >= 3 THEN drift ELSE Append(drift, <<l, ev.op>>)
